@@ -225,7 +225,15 @@ func canonBigApps(o *Obl) {
 		case len(t.Args) == 0:
 			res = t
 		case t.Op == "forall" || t.Op == "exists":
+			body := rwOut(t.Args[0])
 			res = t
+			if body != t.Args[0] {
+				if t.Op == "forall" {
+					res = Forall(t.Bound, body)
+				} else {
+					res = Exists(t.Bound, body)
+				}
+			}
 		default:
 			args := make([]*Term, len(t.Args))
 			ch := false
